@@ -96,7 +96,7 @@ Record FRel (p : fpend) (st : wstate) (m : m14) : Prop := {
   f_sendret : forall t q x, tcur (thr st t) = Some (CPSend q x) -> tret (thr st t) = RUnit;
   f_dropcmd : forall t q, tcur (thr st t) = Some (CPDrop q) -> p <> FDropBad t q ->
               (exists m0, In (ILock m0 (LPqCancelSet q)) (tcont (thr st t))) \/ pcancel (pps st q) = true;
-  f_own_cs : forall t m0 q, In (ILock m0 (LPqCancelSet q)) (tcont (thr st t)) -> tcur (thr st t) = Some (CPDrop q) /\ pexists (pps st q) = true;
+  f_own_cs : forall t m0 q, In (ILock m0 (LPqCancelSet q)) (tcont (thr st t)) -> t = main /\ tcur (thr st t) = Some (CPDrop q) /\ pexists (pps st q) = true;
   f_late_cur : forall t, is_late m t -> exists c, tcur (thr st t) = Some c /\ wcmd c;
   f_own_ret : forall t m0 v, In (IUnlock m0 (URet v)) (tcont (thr st t)) ->
               (forall q x, tcur (thr st t) <> Some (CPSend q x)) /\ (forall z, v = RVal z -> tcur (thr st t) = Some CRecv /\ wkr st t);
@@ -286,7 +286,7 @@ Section FStep.
   Hypothesis O_sendret : forall q x, tcur (thr st' t) = Some (CPSend q x) -> tret (thr st' t) = RUnit.
   Hypothesis O_dropcmd : forall q, tcur (thr st' t) = Some (CPDrop q) ->
     (exists m0, In (ILock m0 (LPqCancelSet q)) (tcont (thr st' t))) \/ pcancel (pps st' q) = true.
-  Hypothesis O_own_cs : forall m0 q, In (ILock m0 (LPqCancelSet q)) (tcont (thr st' t)) -> tcur (thr st' t) = Some (CPDrop q) /\ pexists (pps st' q) = true.
+  Hypothesis O_own_cs : forall m0 q, In (ILock m0 (LPqCancelSet q)) (tcont (thr st' t)) -> t = main /\ tcur (thr st' t) = Some (CPDrop q) /\ pexists (pps st' q) = true.
   Hypothesis O_own_ret : forall m0 v, In (IUnlock m0 (URet v)) (tcont (thr st' t)) ->
     (forall q x, tcur (thr st' t) <> Some (CPSend q x)) /\ (forall z, v = RVal z -> tcur (thr st' t) = Some CRecv /\ wkr st' t).
   Hypothesis O_own_pr : forall j, In j (tcont (thr st' t)) ->
@@ -564,3 +564,43 @@ Proof.
   - intros c Hq Wc. rewrite Hcu in Hq. inversion Hq; subst c. destruct Wc.
 Qed.
 
+
+Lemma exec_pcancel_F : forall p st m t m0 q r st' ev,
+  CInv (core st) -> XInv st -> FRel p st m ->
+  tcont (thr st t) = ILock m0 (LPqCancelSet q) :: r -> exec_instr st t (ILock m0 (LPqCancelSet q)) r = (st', ev) ->
+  FRel p st' (fold_left m14r_step (evs t ev) m).
+Proof.
+  intros p st m t m0 q r st' ev I X R Hc H.
+  destruct (f_own_cs _ _ _ R t m0 q) as [Tm [Hcu Ex]]; [rewrite Hc; left; reflexivity|]. subst t.
+  destruct (exec_instr_eff _ _ _ _ _ _ I Hc H) as [F _ _ _ Htret _ _].
+  assert (Tr : forall u, tret (thr st' u) = tret (thr st u)) by (apply Htret; intros; discriminate).
+  cbn [exec_instr exec_lact] in H.
+  set (s1 := acq_mtx (set_owner st (updM (owner st) m0 (Some main))) main m0) in *.
+  inversion H; subst st' ev; clear H.
+  assert (Pl : forall e, In e [ELock m0] -> f14_plain e) by (intros e [<-|[]]; exact Logic.I).
+  match goal with |- FRel p ?S' _ => set (st' := S') end.
+  assert (Hc' : tcont (thr st' main) = [IUnlock (MPq q) UNone; INotify q] ++ r) by (unfold st', s1; thr_simpl).
+  assert (Fn : forall j, In j [IUnlock (MPq q) UNone; INotify q] -> fq j) by (intros j [<-|[<-|[]]]; exact Logic.I).
+  assert (Ps : forall q', psendq (pps st' q') = psendq (pps st q')).
+  { intro q'. unfold st', s1. cbn. unfold updZ. destruct (Z.eqb_spec q' q) as [->|]; reflexivity. }
+  assert (Pc : pcancel (pps st' q) = true) by (unfold st', s1; cbn; unfold updZ; rewrite Z.eqb_refl; reflexivity).
+  assert (Sp : forall q', spend q' (mcont st') = spend q' (mcont st)).
+  { intro q'. unfold mcont. rewrite Hc, Hc', spend_app, (spend_cons q' _ r). reflexivity. }
+  apply (f_step_q p st st' m _ main _ r [IUnlock (MPq q) UNone; INotify q] q R (m14r_fplain_fold main _ m Pl) F Hc Hc' Fn).
+  - intro q'. unfold st', s1. cbn. unfold updZ. destruct (Z.eqb_spec q' q) as [->|Nq]; cbn; (split; [reflexivity|split; [reflexivity|]]); [intro Y; exfalso; apply Y; reflexivity|intros _; split; reflexivity].
+  - right. exact Ex.
+  - intros _. exact Pc.
+  - intros u _. apply Tr.
+  - intro W. exfalso. exact (main_not_wkr st X W).
+  - intros q' _. apply Sp.
+  - intros u W E. pose proof (f_ps _ _ _ R u W) as L. cbn zeta in L. rewrite E in L.
+    destruct (m14r_fplain_fold main [ELock m0] m Pl) as [M1 M2 M3 M4]. unfold dps in *. rewrite M1, M2.
+    assert (Hu : u <> main) by (intro Y; subst u; exact (main_not_wkr st X W)).
+    assert (Rt : rtransit (thr st' u) = rtransit (thr st u)).
+    { unfold rtransit. replace (thr st' u) with (thr st u); [reflexivity|]. unfold st', s1. thr_simpl. }
+    rewrite Rt, Ps, Sp. exact L.
+  - intros c W. exfalso. exact (main_not_wkr st X W).
+  - intros q' x' Hq. rewrite Hcu in Hq. discriminate Hq.
+  - intros q' Hq. rewrite Hcu in Hq. inversion Hq; subst q'. right. exact Pc.
+  - intros c Hq Wc. rewrite Hcu in Hq. inversion Hq; subst c. destruct Wc.
+Qed.
